@@ -148,6 +148,17 @@ def run(ctx):
                 keysets.append(("member", [float(i) for i in p]))
                 keysets.append(("member-int", p))
             keysets.append(("ties", [float(rng.randrange(2)) for _ in range(n)]))
+            # integer-valued item indexes with repetitions — in range, some with the same sum as a true permutation
+            for _ in range(4):
+                keysets.append(("int-ties", [rng.randrange(n) for _ in range(n)]))
+            if n >= 3:
+                p = list(range(n)); rng.shuffle(p)
+                i, j = rng.sample(range(n), 2)
+                if abs(p[i] - p[j]) >= 2:
+                    lo, hi = (i, j) if p[i] < p[j] else (j, i)
+                    q = list(p); q[lo] += 1; q[hi] -= 1          # same sum, two equal entries possible
+                    keysets.append(("int-ties-same-sum", q))
+                    keysets.append(("int-ties-same-sum", [float(x) for x in q]))
             keysets.append(("inf", [rng.choice([math.inf, -math.inf, 0.5]) for _ in range(n)]))
             keysets.append(("huge", [rng.uniform(-1e308, 1e308) for _ in range(n)]))
             for kind, keys in keysets:
